@@ -491,7 +491,7 @@ def equivalent(m1, m2, feeds_list, base_outs=None, nondet=()):
                 a, b = o1[i], o2[i]
                 if not isinstance(a, list) and (np.asarray(a).dtype != np.asarray(b).dtype or np.asarray(a).shape != np.asarray(b).shape):
                     return "shape", f"feed {k}: nondeterministic out[{i}]: {np.asarray(a).dtype}{np.asarray(a).shape} vs {np.asarray(b).dtype}{np.asarray(b).shape}"
-            if k == 0 and idx:
+            if idx:
                 # the original draws fresh numbers on every run; so must the result (else a random op was folded)
                 # fresh sessions on both sides: ORT seeds its generator per session, so two runs of ONE session may repeat
                 st1b, o1b = runner.ort_run(m1, feeds)
